@@ -13,6 +13,9 @@
 #include <cstdint>
 #include <cstdio>
 #include <cstdlib>
+#include <thread>
+#include <mutex>
+#include <atomic>
 #include <cstring>
 #include <fcntl.h>
 #include <fstream>
@@ -114,6 +117,64 @@ inline std::vector<std::uint8_t> read_case_file(const std::string& path) {
     return unhex(hexs);
 }
 
+// ---- watchdog: the one wall-clock signal of the framework.  A case (one generated program / one scheduled run) normally takes
+// milliseconds.  A case that has not returned after kCaseWallLimit seconds is in an endless loop the step counters cannot see (a retry
+// loop without any yield hook, e.g. an enter() that is refused for ever).  While shrinking, the best failing candidate found so far is
+// reported instead (shrinking simply stops); otherwise the case is reported as `case_hang` and has to repeat that 3x in fresh processes
+// before the driver prints it.  heartbeat() restarts the clock (called at the start of every execution inside a case).
+inline std::atomic<std::uint64_t> g_case_started_ms{0};
+inline std::uint64_t now_ms() {
+    return static_cast<std::uint64_t>(std::chrono::duration_cast<std::chrono::milliseconds>(std::chrono::steady_clock::now().time_since_epoch()).count());
+}
+inline void heartbeat() { g_case_started_ms.store(now_ms(), std::memory_order_relaxed); }
+inline void case_done() { g_case_started_ms.store(0, std::memory_order_relaxed); }
+struct BestFail {
+    std::mutex mu;
+    bool have{false};
+    std::string sig, msg, prop, path;
+    std::vector<std::uint8_t> bytes;
+    std::uint64_t seed{0};
+    int shard{0};
+};
+inline BestFail g_best_fail;
+inline void start_watchdog(bool replay_mode) {
+    std::uint64_t limit_s = 150;
+    if (const char* e = std::getenv("VF_CASE_WALL_LIMIT_S")) { limit_s = std::strtoull(e, nullptr, 10); }
+    std::thread([limit_s, replay_mode] {
+        for (;;) {
+            std::this_thread::sleep_for(std::chrono::milliseconds(500));
+            std::uint64_t t = g_case_started_ms.load(std::memory_order_relaxed);
+            if (t == 0 || now_ms() - t < limit_s * 1000) { continue; }
+            std::unique_lock<std::mutex> lk(g_best_fail.mu);
+            if (!replay_mode && g_best_fail.have) {
+                FILE* f = std::fopen(g_best_fail.path.c_str(), "w");
+                if (f != nullptr) {
+                    std::fprintf(f, "# property=%s signature=%s seed=%llu shard=%d decoder=%d (shrinking stopped: a smaller candidate did not return within %llu s)\n",
+                                 g_best_fail.prop.c_str(), g_best_fail.sig.c_str(), static_cast<unsigned long long>(g_best_fail.seed), g_best_fail.shard, 2,
+                                 static_cast<unsigned long long>(limit_s));
+                    std::string m = g_best_fail.msg;
+                    std::size_t pos = 0;
+                    while (pos < m.size()) {
+                        std::size_t e2 = m.find('\n', pos);
+                        if (e2 == std::string::npos) { e2 = m.size(); }
+                        std::fprintf(f, "# %s\n", m.substr(pos, e2 - pos).c_str());
+                        pos = e2 + 1;
+                    }
+                    std::fprintf(f, "%s\n", hex(g_best_fail.bytes).c_str());
+                    std::fclose(f);
+                }
+                std::printf("FAIL signature=%s file=%s\n", g_best_fail.sig.c_str(), g_best_fail.path.c_str());
+                std::fflush(stdout);
+                _exit(1);
+            }
+            std::printf("FAIL signature=case_hang msg=the case did not return within %llu s of wall-clock time (cases normally take milliseconds): an endless loop that passes no yield point\n",
+                        static_cast<unsigned long long>(limit_s));
+            std::fflush(stdout);
+            _exit(replay_mode ? 1 : 4);
+        }
+    }).detach();
+}
+
 class CurCase {
 public:
     void open(const std::string& path) { fd_ = ::open(path.c_str(), O_CREAT | O_RDWR | O_TRUNC, 0644); }
@@ -137,9 +198,12 @@ using RunCaseFn = CaseResult (*)(const RunnerArgs&, const std::vector<std::uint8
 inline int runner_main(const RunnerArgs& a, RunCaseFn run_case) {
     Stats st;
     st.property = a.prop;
+    start_watchdog(a.mode == "replay");
     if (a.mode == "replay") {
         auto bytes = read_case_file(a.file);
+        heartbeat();
         CaseResult r = run_case(a, bytes, true, st);
+        case_done();
         if (r.pass) {
             std::printf("PASS%s\n", r.inconclusive ? " (inconclusive)" : "");
             if (a.verbose) { std::printf("%s\n", r.message.c_str()); }
@@ -158,7 +222,9 @@ inline int runner_main(const RunnerArgs& a, RunCaseFn run_case) {
     std::map<std::string, std::string> known_msg;
     auto prop = [&](const std::vector<std::uint8_t>& bytes, bool shrinking) -> bool {
         cur.set(bytes);
+        heartbeat();
         CaseResult r = run_case(a, bytes, !shrinking, st);
+        case_done();
         if (!shrinking) {
             ++st.evaluations;
             if (r.inconclusive) { ++st.inconclusive; }
@@ -183,6 +249,17 @@ inline int runner_main(const RunnerArgs& a, RunCaseFn run_case) {
             return true;
         }
         fail_msg = r.message;
+        {
+            std::unique_lock<std::mutex> lk(g_best_fail.mu);
+            g_best_fail.have = true;
+            g_best_fail.sig = fail_sig;
+            g_best_fail.msg = fail_msg;
+            g_best_fail.bytes = bytes;
+            g_best_fail.prop = a.prop;
+            g_best_fail.seed = a.seed;
+            g_best_fail.shard = static_cast<int>(a.shard);
+            g_best_fail.path = a.out + "/fail." + tag + ".hex";
+        }
         return false;
     };
     RcOutcome oc = rc_drive(a.seed, a.cases, a.maxlen, prop, !a.extra.empty() ? 300 : (a.prop == "C02" || a.prop == "C03" ? 6000 : 2500));
